@@ -13,7 +13,7 @@ THEOREMS = [
     "C12.diameter_eq", "C12.diameter_longest_path",
 ]
 PROOF_IMPORTS = ["BigtreeProofs.Properties.C12"]
-RULE = ("every derived property on every node ('props' lines) and go_to on every ordered pair of nodes ('goto' lines) "
+RULE = ("(Node, BaseNode and BinaryNode objects) every derived property on every node ('props' lines) and go_to on every ordered pair of nodes ('goto' lines) "
         "of: all ordered trees up to N nodes (Node), all binary shapes with empty slots up to M nodes (BinaryNode), "
         "random trees (<=40 nodes, depth<=10, fan-out<=8, incl. wide nodes whose tallest children come last), "
         "random binary trees, and go_to across two different trees (refused); non-trivial = the tree has >=3 nodes; "
@@ -66,13 +66,13 @@ def _line(d):
     return f"goto from={d['from']} to={d['to']} {trees}"
 
 
-def mk_props(spec, node, binary=False, tags=()):
-    d = {"op": "props", "spec": spec, "binary": binary, "node": node}
+def mk_props(spec, node, binary=False, tags=(), cls="node"):
+    d = {"op": "props", "spec": spec, "binary": binary, "node": node, "cls": cls}
     return Case(_line(d), d, tags)
 
 
-def mk_goto(spec, a, b, binary=False, spec2=None, binary2=False, tags=()):
-    d = {"op": "goto", "spec": spec, "binary": binary, "from": a, "to": b, "spec2": spec2, "binary2": binary2}
+def mk_goto(spec, a, b, binary=False, spec2=None, binary2=False, tags=(), cls="node"):
+    d = {"op": "goto", "spec": spec, "binary": binary, "from": a, "to": b, "spec2": spec2, "binary2": binary2, "cls": cls}
     return Case(_line(d), d, tags)
 
 
@@ -151,14 +151,15 @@ def gen(rng: random.Random, tier: str):
                 shape = core.random_shape(rng, size)
         spec = spec_from_shape(shape)
         n = core.shape_size(shape)
-        tg = ("random",) + _shape_tags(shape)
+        cls = "base" if rng.random() < 0.3 else "node"
+        tg = ("random", "cls=" + cls) + _shape_tags(shape)
         for v in range(n):
-            cases.append(mk_props(spec, v, tags=tg + ("props",)))
+            cases.append(mk_props(spec, v, tags=tg + ("props",), cls=cls))
         pairs = [(a, b) for a in range(n) for b in range(n)]
         if len(pairs) > 120:
             pairs = rng.sample(pairs, 120)
         for a, b in pairs:
-            cases.append(mk_goto(spec, a, b, tags=tg + ("goto",)))
+            cases.append(mk_goto(spec, a, b, tags=tg + ("goto",), cls=cls))
     for _ in range(30 if tier == "quick" else 300):
         nb = rng.randint(6, 25)
         spec = core.label_bshape(core.random_bshape(rng, nb))
@@ -199,9 +200,26 @@ def nontrivial(case):
 
 
 # ---------------------------------------------------------------- implementation side
+def _build_base(spec):
+    """the same shape out of plain BaseNode objects (no names)"""
+    from bigtree import BaseNode
+    nodes = []
+    def go(s, parent):
+        n = BaseNode()
+        nodes.append(n)
+        if parent is not None:
+            n.parent = parent
+        for c in s[2]:
+            go(c, n)
+        return n
+    return go(spec, None), nodes
+
+
 def _build(d):
     def one(spec, binary):
-        return core.build_binary_tree(spec) if binary else core.build_node_tree(spec)
+        if binary:
+            return core.build_binary_tree(spec)
+        return _build_base(spec) if d.get("cls") == "base" else core.build_node_tree(spec)
     root, nodes = one(d["spec"], d["binary"])
     roots = [root]
     if d.get("spec2") is not None:
